@@ -543,39 +543,76 @@ fn enum_manifest(names: &[&[u8]]) -> Vec<u8> {
     wrap(&der::manifest_content(&[1], t, n, &list, false))
 }
 
-fn run_name_chunk(c: &NameChunk, obs: &mut Obs) -> CheckResult {
-    let base = uri::Rsync::from_str(BASES[1]).unwrap();
-    for idx in c.start..(c.start + c.len).min(enum_total()) {
-        let name = nth_name(idx);
-        let ok = name_ok(&name);
-        let one = json!({ "start": idx, "len": 1 });
-        for second in [false, true] {
-            let bytes = if second { enum_manifest(&[b"ok.cer", &name]) } else { enum_manifest(&[&name]) };
-            for strict in [true, false] {
-                let r = no_panic("Manifest::decode", || Manifest::decode(bytes.as_slice(), strict)).map_err(|f| f.with_case(one.clone()))?;
-                if r.is_ok() != ok {
-                    let msg = format!(
-                        "Manifest::decode(strict={}) {} file name {:?} (reference predicate: {})",
-                        strict, if r.is_ok() { "accepts" } else { "rejects" }, String::from_utf8_lossy(&name), ok
-                    );
-                    let sig = if is_empty_base(&name) { SIG_F13 } else { "name-enum" };
-                    return Err(Fail::sig(sig, msg).with_case(one));
-                }
-                if let Ok(m) = r {
-                    let uris = no_panic("iter_uris", || m.content().iter_uris(&base).collect::<Vec<_>>()).map_err(|f| f.with_case(one.clone()))?;
-                    let last = uris.last().map(|(u, _)| u.as_slice().to_vec()).unwrap_or_default();
-                    let mut want = b"rsync://example.com/mod/dir/".to_vec();
-                    want.extend_from_slice(&name);
-                    if last != want || uris.len() != 1 + second as usize {
-                        return Err(Fail::sig("name-enum", format!("iter_uris for {:?} yields {:?}", String::from_utf8_lossy(&name), String::from_utf8_lossy(&last))).with_case(one));
-                    }
+/// One file name through `Manifest::decode` (alone and behind a valid entry; strict and
+/// relaxed) against the reference predicate, and `iter_uris` of whatever decodes.
+fn check_name(name: &[u8], base: &uri::Rsync, one: serde_json::Value) -> CheckResult {
+    let ok = name_ok(name);
+    for second in [false, true] {
+        let bytes = if second { enum_manifest(&[b"ok.cer", name]) } else { enum_manifest(&[name]) };
+        for strict in [true, false] {
+            let r = no_panic("Manifest::decode", || Manifest::decode(bytes.as_slice(), strict)).map_err(|f| f.with_case(one.clone()))?;
+            if r.is_ok() != ok {
+                let msg = format!(
+                    "Manifest::decode(strict={}) {} file name {:?} (reference predicate: {})",
+                    strict, if r.is_ok() { "accepts" } else { "rejects" }, String::from_utf8_lossy(name), ok
+                );
+                let sig = if is_empty_base(name) { SIG_F13 } else { "name-enum" };
+                return Err(Fail::sig(sig, msg).with_case(one));
+            }
+            if let Ok(m) = r {
+                let uris = no_panic("iter_uris", || m.content().iter_uris(base).collect::<Vec<_>>()).map_err(|f| f.with_case(one.clone()))?;
+                let last = uris.last().map(|(u, _)| u.as_slice().to_vec()).unwrap_or_default();
+                let mut want = b"rsync://example.com/mod/dir/".to_vec();
+                want.extend_from_slice(name);
+                if last != want || uris.len() != 1 + second as usize {
+                    return Err(Fail::sig("name-enum", format!("iter_uris for {:?} yields {:?}", String::from_utf8_lossy(name), String::from_utf8_lossy(&last))).with_case(one));
                 }
             }
         }
     }
+    Ok(())
+}
+
+fn run_name_chunk(c: &NameChunk, obs: &mut Obs) -> CheckResult {
+    let base = uri::Rsync::from_str(BASES[1]).unwrap();
+    for idx in c.start..(c.start + c.len).min(enum_total()) {
+        check_name(&nth_name(idx), &base, json!({ "start": idx, "len": 1 }))?;
+    }
     let n = (c.start + c.len).min(enum_total()).saturating_sub(c.start);
     obs.evals(n.saturating_sub(1));
     obs.bulk_nontrivial = n;
+    Ok(())
+}
+
+/// Every octet value at every kind of position of a file name (the character class of
+/// RFC 9286 is a table with 256 entries).
+#[derive(Clone, Debug, Serialize, Deserialize)]
+pub struct NameOctet {
+    pub octet: u8,
+    /// Some: only this position
+    pub only: Option<u8>,
+}
+
+fn run_name_octet(c: &NameOctet, obs: &mut Obs) -> CheckResult {
+    let base = uri::Rsync::from_str(BASES[1]).unwrap();
+    let b = c.octet;
+    let spots: [(&[u8], &[u8]); 9] = [
+        (b"", b"bc.roa"), (b"a", b"c.roa"), (b"ab", b".roa"), (b"", b".roa"), (b"abc.", b"oa"), (b"abc.r", b"a"), (b"abc.ro", b""),
+        (b"abc", b"roa"), (b"abc.roa", b""),
+    ];
+    let mut n = 0;
+    for (k, (pre, post)) in spots.iter().enumerate() {
+        if c.only.is_some_and(|o| o as usize != k) {
+            continue;
+        }
+        let mut name = pre.to_vec();
+        name.push(b);
+        name.extend_from_slice(post);
+        check_name(&name, &base, json!({ "octet": b, "only": k }))?;
+        n += 1;
+    }
+    obs.evals((n as u64).saturating_sub(1));
+    obs.bulk_nontrivial = n as u64;
     Ok(())
 }
 
@@ -661,6 +698,14 @@ pub fn property() -> Property {
                 count: |_, _| enum_total().div_ceil(CHUNK),
                 make: |_, _, idx| NameChunk { start: idx * CHUNK, len: CHUNK },
                 run: run_name_chunk,
+                exhaustive: true,
+            }
+            .boxed(),
+            EnumSub {
+                name: "name-octets",
+                count: |_, _| 256,
+                make: |_, _, i| NameOctet { octet: i as u8, only: None },
+                run: run_name_octet,
                 exhaustive: true,
             }
             .boxed(),
